@@ -351,17 +351,55 @@ impl State {
 
     fn build_from_file(&mut self, path: Xstr, mode: ContextMode) -> Xresult {
         let s = crate::file::fs_overlay::read_source_file(&path)?;
-        self.context_open(mode)?;
-        self.intern_source(s.into(), Some(path))?;
-        self.build0()?;
-        self.context_close()
+        self.build_source(s.into(), Some(path), mode)
     }
 
     fn build_from_source(&mut self, s: Xstr, mode: ContextMode) -> Xresult {
+        self.build_source(s, None, mode)
+    }
+
+    fn build_source(&mut self, s: Xstr, path: Option<Xstr>, mode: ContextMode) -> Xresult {
+        if mode == ContextMode::Compile && self.nested.is_empty()
+            && self.last_error.is_some() && self.is_running() {
+            // the previous line stopped at a run-time error: what is left of it
+            // must not run again together with this line
+            self.ctx.ip = self.code.len();
+            self.return_stack.truncate(self.ctx.rs_len);
+            self.loops.truncate(self.ctx.ls_len);
+            self.special.truncate(self.ctx.ss_ptr);
+        }
+        let depth = self.nested.len();
+        let inputs = self.input.len();
         self.context_open(mode)?;
-        self.intern_source(s, None)?;
-        self.build0()?;
+        self.intern_source(s, path)?;
+        if let Err(e) = self.build0() {
+            self.abandon_build(depth, inputs);
+            return Err(e);
+        }
         self.context_close()
+    }
+
+    // The source was rejected while it was being read or compiled: leave every context it
+    // opened (including unclosed meta blocks), forget its unread text, its pending control
+    // structures, its half-compiled code and the words that code defined, so that the next
+    // source starts exactly where this one started.
+    fn abandon_build(&mut self, depth: usize, inputs: usize) {
+        self.input.truncate(inputs);
+        while self.nested.len() > depth {
+            let prev = self.nested.pop().unwrap();
+            self.flow_stack.truncate(self.ctx.fs_len);
+            self.loops.truncate(self.ctx.ls_len);
+            self.special.truncate(self.ctx.ss_ptr);
+            self.return_stack.truncate(self.ctx.rs_len);
+            if self.ctx.mode == ContextMode::MetaEval {
+                // values of an unfinished meta block are not results of anything
+                self.data_stack.truncate(self.ctx.ds_len);
+            }
+            self.code.truncate(self.ctx.cs_len);
+            self.debug_map.truncate(self.ctx.cs_len);
+            self.dict.truncate(self.ctx.di_len);
+            self.ctx = prev;
+        }
     }
 
     pub fn eval_file(&mut self, path: Xstr) -> Xresult {
